@@ -387,12 +387,27 @@ impl Evidence {
 
     pub fn write(&self) {
         use serde_json::{Value, json};
+        if std::env::var_os("VERIF_NO_EVIDENCE").is_some() {
+            return;
+        }
         let mut coverage = serde_json::Map::new();
-        coverage.insert("evaluations".into(), json!(self.stats.evaluations));
+        // a check may consist of several binaries (feature variants) run one
+        // after the other by ./check: later ones add to the file just written
+        let path = format!("/verif/evidence/{}.json", self.property_id);
+        let prior: Option<Value> = std::env::var_os("VERIF_EVIDENCE_MERGE")
+            .and_then(|_| std::fs::read_to_string(&path).ok())
+            .and_then(|t| serde_json::from_str(&t).ok());
+        let p = |k: &str| -> u64 {
+            prior.as_ref().and_then(|v| v["coverage"][k].as_u64()).unwrap_or(0)
+        };
+        coverage.insert("evaluations".into(), json!(self.stats.evaluations + p("evaluations")));
         coverage.insert(
             "distinct_nontrivial".into(),
-            json!(self.stats.nontrivial.len()),
+            json!(self.stats.nontrivial.len() as u64 + p("distinct_nontrivial")),
         );
+        if let Some(pr) = &prior {
+            coverage.insert("merged_from_previous_variant".into(), pr["coverage"].clone());
+        }
         coverage.insert("rule".into(), json!(self.rule));
         let samples: Vec<Value> = if self.stats.samples.is_empty() {
             vec![json!("(no non-trivial sample recorded)")]
@@ -412,11 +427,12 @@ impl Evidence {
             "level": self.level,
             "coverage": Value::Object(coverage),
             "assumptions": self.assumptions,
-            "wall_s": self.started.elapsed().as_secs_f64(),
-            "violations": self.violations,
+            "wall_s": self.started.elapsed().as_secs_f64()
+                + prior.as_ref().and_then(|v| v["wall_s"].as_f64()).unwrap_or(0.0),
+            "violations": self.violations
+                + prior.as_ref().and_then(|v| v["violations"].as_u64()).unwrap_or(0),
         });
         let _ = std::fs::create_dir_all("/verif/evidence");
-        let path = format!("/verif/evidence/{}.json", self.property_id);
         std::fs::write(&path, serde_json::to_string_pretty(&doc).unwrap())
             .expect("write evidence");
     }
